@@ -50,6 +50,45 @@ FIXED_PROGRAMS = [
 ]
 
 
+# programs around a rep-prefixed string instruction whose concrete count also lives elsewhere (copied to / from another register,
+# pushed, stored): (count, lines); the reference unrolls the string instruction `count` times and ends with ecx = 0
+REP_PROGRAMS = [
+    (3, ['cld', 'mov ecx, 3', 'mov edx, ecx', 'rep stosb']),
+    (3, ['cld', 'mov eax, 3', 'mov ecx, eax', 'rep stosb']),
+    (3, ['cld', 'mov ecx, 3', 'push ecx', 'rep stosb', 'pop ecx']),
+    (2, ['cld', 'mov ecx, 2', 'mov ebx, ecx', 'rep movsd', 'add ebx, ecx']),
+    (2, ['cld', 'mov ecx, 2', 'rep stosd', 'mov edx, ecx', 'inc edx']),
+    (1, ['cld', 'mov ecx, 1', 'mov DWORD PTR [esp-8], ecx', 'rep lodsb', 'mov edx, DWORD PTR [esp-8]']),
+    (0, ['cld', 'xor ecx, ecx', 'mov edx, ecx', 'rep stosb', 'dec edx']),
+    (2, ['cld', 'mov edx, 2', 'mov ecx, edx', 'lea ebx, [ecx+ecx*2]', 'rep movsw', 'add edx, ebx']),
+]
+
+
+def repprog_build(item):
+    """(instructions for the machine, instructions of the reference)"""
+    A = E.A
+    cnt, lines = item
+    mach, ref = [], []
+    for t in lines:
+        if t.startswith('rep '):
+            b = bytes([0xF3]) + bytes(A.x86mnemo.asm(t[4:])[0])
+            ri = A.x86mnemo.dis(b)
+            ri.offset = 0
+            mach.append(ri)
+            single = A.x86mnemo.dis(b[1:])
+            single.offset = 0
+            ref += [single] * cnt
+            z = A.x86mnemo.dis(bytes(A.x86mnemo.asm('mov ecx, 0')[0]))
+            z.offset = 0
+            ref.append(z)
+        else:
+            i = A.x86mnemo.dis(bytes(A.x86mnemo.asm(t)[0]))
+            i.offset = 0
+            mach.append(i)
+            ref.append(i)
+    return mach, ref
+
+
 def gen_programs(tier, seed):
     rnd = random.Random(seed)
     n = 30 if tier == 'quick' else 400
@@ -77,6 +116,7 @@ def jobs(tier, seed):
         for cnt in range(0, 5):
             reps.append((mn, cnt))
     js.append(('rep', tier, reps))
+    js.append(('repprog', tier, list(REP_PROGRAMS)))
     # repe / repne with the ZF termination test: byte values symbolic through the real emulator (E2)
     for mn in ('cmpsb', 'scasb', 'cmpsd', 'scasw'):
         for pfx in (0xF3, 0xF2):
@@ -312,6 +352,11 @@ def run(job, res):
                 machine = EH.x86_machine()
                 EH.emul_lines(machine, instrs)
                 title = ' ; '.join(lines)
+            elif kind == 'repprog':
+                minstrs, instrs = repprog_build(it)
+                machine = EH.x86_machine()
+                EH.emul_lines(machine, minstrs)
+                title = ' ; '.join(it[1])
             else:
                 mn, cnt = it
                 b = bytes([0xF3]) + bytes(E.A.x86mnemo.asm(mn)[0])
@@ -348,7 +393,7 @@ def run(job, res):
         esp0, esi0 = c.id('init_esp', 32), c.id('init_esi', 32)
         assume = z3.And(z3.UGT(esp0 - esi0, 256), z3.UGT(esi0 - esp0, 256), z3.UGT(esp0, 0x1000), z3.ULT(esp0, 0xFFFFF000),
                         z3.UGT(esi0, 0x1000), z3.ULT(esi0, 0xFFFFF000))
-        if kind == 'rep':
+        if kind in ('rep', 'repprog'):
             edi0 = c.id('init_edi', 32)
             assume = z3.And(assume, z3.UGT(edi0 - esi0, 256), z3.UGT(esi0 - edi0, 256), z3.UGT(edi0 - esp0, 256), z3.UGT(esp0 - edi0, 256))
         bad = _pool_compare(machine, c, st, mem, find, X, assume)
@@ -367,7 +412,7 @@ def run(job, res):
             for (nm, sz), v in c.ids.items():
                 if nm.startswith('init_'):
                     vals[nm] = m.eval(v, model_completion=True).as_long()
-            key = '%s:%s:%s' % (kind, rn, (it[0] if kind == 'rep' else '+'.join(sorted(set(l.split()[0] for l in it)))))
+            key = '%s:%s:%s' % (kind, rn, (it[0] if kind == 'rep' else '+'.join(sorted(set(l.split()[0] for l in (it[1] if kind == 'repprog' else it))))))
             res['candidates'].append({'key': key, 'desc': '%s: %s' % (title, desc),
                                       'data': {'kind': kind, 'item': it, 'res': rn, 'vals': vals}})
 
@@ -416,6 +461,7 @@ if kind == 'repz':
 if D['res'] == 'exc':
     try:
         if kind == 'prog': EH.emul_lines(EH.x86_machine(), c07p._decode(it))
+        elif kind == 'repprog': EH.emul_lines(EH.x86_machine(), c07p.repprog_build(it)[0])
         else:
             b = bytes([0xF3]) + bytes(A.x86mnemo.asm(it[0])[0]); ri = A.x86mnemo.dis(b); ri.offset = 0
             mch = EH.x86_machine(); mch.pool[SEM.ecx] = X.ExprInt(M.uint32(it[1])); mch.pool[SEM.df] = X.ExprInt(M.uint32(0)); EH.emul_lines(mch, [ri])
@@ -424,6 +470,8 @@ if D['res'] == 'exc':
         print('emulation raises', type(ex).__name__, ex); print('C07 replay: VIOLATED'); sys.exit(1)
 if kind == 'prog':
     instrs = c07p._decode(it); machine = EH.x86_machine(); EH.emul_lines(machine, instrs); print(' ; '.join(it))
+elif kind == 'repprog':
+    minstrs, instrs = c07p.repprog_build(it); machine = EH.x86_machine(); EH.emul_lines(machine, minstrs); print(' ; '.join(it[1]))
 else:
     mn, cnt = it
     b = bytes([0xF3]) + bytes(A.x86mnemo.asm(mn)[0]); ri = A.x86mnemo.dis(b); ri.offset = 0
@@ -439,7 +487,7 @@ def find(cond):
     s.push(); s.add(cond); r = str(s.check()); m = s.model() if r == 'sat' else None; s.pop(); return r, m
 esp0, esi0, edi0 = c.id('init_esp', 32), c.id('init_esi', 32), c.id('init_edi', 32)
 assume = z3.And(z3.UGT(esp0 - esi0, 256), z3.UGT(esi0 - esp0, 256), z3.UGT(esp0, 0x1000), z3.ULT(esp0, 0xFFFFF000), z3.UGT(esi0, 0x1000), z3.ULT(esi0, 0xFFFFF000))
-if kind == 'rep': assume = z3.And(assume, z3.UGT(edi0 - esi0, 256), z3.UGT(esi0 - edi0, 256), z3.UGT(edi0 - esp0, 256), z3.UGT(esp0 - edi0, 256))
+if kind in ('rep', 'repprog'): assume = z3.And(assume, z3.UGT(edi0 - esi0, 256), z3.UGT(esi0 - edi0, 256), z3.UGT(edi0 - esp0, 256), z3.UGT(esp0 - edi0, 256))
 bad = [b_ for b_ in c07p._pool_compare(machine, c, st, mem, find, X, assume) if b_[2] is not None and b_[0] == D['res']]
 for rn, desc, m in bad: print(rn, ':', desc, '| machine state:', machine.pool.pool_id.get(getattr(SEM, rn, None)) if rn != 'mem' else '')
 print('C07 replay:', 'VIOLATED' if bad else 'holds')
